@@ -117,7 +117,10 @@ class Run:
             "samples": self.samples or [{"note": "no sample recorded"}],
             "exhaustive": self.exhaustive,
             "model_runs": self.model_runs,
-            "classes": dict(sorted(self.classes.items())),
+            "classes_total": len(self.classes),
+            # every class with its count when there are few; otherwise an evenly spaced sample of 200 of them
+            "classes": (dict(sorted(self.classes.items())) if len(self.classes) <= 200
+                        else dict(sorted(self.classes.items())[:: max(1, len(self.classes) // 200)])),
             "violation_signatures": {s: n for s, n in per_sig.items()},
             "known_finding_signatures": sorted(known_hits),
         }
